@@ -837,8 +837,8 @@ READINGS (weaker reading taken where the English is ambiguous)
 * The property quantifies over consistent IR states: a REJECTED edit can leave the IR inconsistent
   (GraphOutputs.__setitem__ clears the old value's flag/owner before _set_graph raises for the new one: a C01-type
   defect, reported to the orchestrator, not a C03 finding); then (c) is not enforced and py_flag is false.
-* ir_version < 10 with functions uses the experimental value-info format the model leaves out: Coq comparison
-  skipped (`unmodelled`), oracle still runs.
+* ir_version < 10 with functions uses the experimental value-info format: modelled since the deepening round
+  (C03/ModelOld.v; flag `old`, tables X/Y), compared in Coq like every other case.
 * DEVICE CONFIGURATIONS (statement: "from IR version 11").  Generated through the public API:
   ir.Model(device_configurations=...), model.add_device_configuration / remove_device_configuration(cascade or not,
   by name or by object), Node.set_pipeline_stage (stage 0 included), Node.shard (several axes, device indices,
@@ -3343,7 +3343,9 @@ def run(ck) -> None:
              "plain attribute, metadata): modelled, not verified here (C02/C04); Model.norm_pay is supplied per case",
              "protobuf message equality (q1 == q2)",
              "modelled not verified: Python recursion limit (ser_graph fuel = number of graphs + 1), quantization "
-             "annotations, device configurations, IR<10 function value-info format, per-subgraph opset imports")
+             "annotations, content of device configurations (opaque part of tokens), per-subgraph opset imports; "
+             "IR<10 function value-info format: structure modelled (C03/ModelOld.v), its two name operations "
+             "(parse / compose of \"domain::function/value\") are per-case tables computed by the library")
     ck.assumptions += ["onnx/protobuf/numpy as installed in /venv"]
     ck.coverage["rule"] = ("non-trivial = model satisfying `serializable` (Python and Coq agree) that has a nested "
                            "graph, a function or a non-empty edit history, round-tripped and compared by the "
